@@ -685,7 +685,8 @@ impl<'a> Runner<'a> {
         let known = self.clients[c].id.to_string();
         let stranger = self.stranger.to_string();
         let latest = self.clients[c].latest();
-        let which = if own_id_only { *self.rng.pick(&[1usize, 1, 3, 4, 5, 7, 9]) } else { self.rng.usize(10) };
+        let in_process = !self.subj.kind.socket;
+        let which = if own_id_only { *self.rng.pick(&[1usize, 1, 3, 4, 5, 7, 9]) } else { self.rng.usize(if in_process { 12 } else { 10 }) };
         let (name, req): (&str, HttpReq) = match which {
             0 => ("add-version with empty body from a never-seen client", HttpReq::new("POST", &format!("/v1/client/add-version/{}", Uuid::nil())).header("X-Client-Id", &stranger).header("Content-Type", CT_HISTORY)),
             1 => ("add-version with empty body", HttpReq::new("POST", &format!("/v1/client/add-version/{latest}")).header("X-Client-Id", &known).header("Content-Type", CT_HISTORY)),
@@ -696,6 +697,16 @@ impl<'a> Runner<'a> {
             6 => ("add-version without a client id", HttpReq::new("POST", &format!("/v1/client/add-version/{latest}")).header("Content-Type", CT_HISTORY).body(vec![1])),
             7 => ("add-version with a malformed parent id", HttpReq::new("POST", "/v1/client/add-version/not-a-uuid").header("X-Client-Id", &known).header("Content-Type", CT_HISTORY).body(vec![1])),
             8 => ("add-snapshot from a never-seen client", HttpReq::new("POST", &format!("/v1/client/add-snapshot/{latest}")).header("X-Client-Id", &stranger).header("Content-Type", CT_SNAPSHOT).body(vec![7; 30])),
+            10 => {
+                let mut r = HttpReq::new("POST", &format!("/v1/client/add-version/{latest}")).header("X-Client-Id", &known).header("Content-Type", CT_HISTORY).body_chunks(vec![vec![b'p'; 40], vec![b'q'; 50], vec![b'r'; 60]]);
+                r.fail_after = Some(1 + self.rng.usize(2));
+                ("add-version whose body transfer breaks off", r)
+            }
+            11 => {
+                let mut r = HttpReq::new("POST", &format!("/v1/client/add-snapshot/{latest}")).header("X-Client-Id", &known).header("Content-Type", CT_SNAPSHOT).body_chunks(vec![vec![b's'; 40], vec![b't'; 50], vec![b'u'; 60]]);
+                r.fail_after = Some(1 + self.rng.usize(2));
+                ("add-snapshot whose body transfer breaks off", r)
+            }
             _ => ("request to an unknown route", HttpReq::new("POST", "/v1/client/add-version").header("X-Client-Id", &known).header("Content-Type", CT_HISTORY).body(vec![1])),
         };
         let before = if self.mon.frame { Some(self.dump()) } else { None };
@@ -706,7 +717,9 @@ impl<'a> Runner<'a> {
         if own_id_only {
             self.cov.hit(format!("refused-before-first-request:{name}"));
         }
-        if self.mon.frame && (400..500).contains(&resp.status) && before != after {
+        // (an upload that broke off is not a complete request: nothing of it may be stored, whatever
+        // the answer)
+        if self.mon.frame && ((400..500).contains(&resp.status) || which >= 10) && before != after {
             self.v("C18", format!(
                 "refused request ({name}: {}) on {} was answered {} but stored state changed: {}",
                 req.describe(), self.subj.kind.name(), resp.status, before.as_ref().unwrap().diff(after.as_ref().unwrap())
